@@ -9,7 +9,7 @@ import genrun
 
 
 def check(rep):
-    coq = fw.coq_check("C07", ["SrcBond"])
+    coq = fw.coq_check("C07", ["SrcBond", "SrcCore", "SrcGen"])
     quick = rep.tier == "quick"
     import gen_inputs as gi
     # natural draws of wide Gaussians: negative first draws happen by themselves (one draw per object, growth obeys THAT draw)
